@@ -139,38 +139,41 @@ func c17r2(p *Prog, r *Reporter) {
 	name := p.FuncName(load)
 	g := p.guardAnalysis()
 	lock := g.flow(load)
-	fresh := &MustFlow{Fn: load, EdgeGen: func(b *ssa.BasicBlock, k int) bool {
+	isLenEntities := func(v ssa.Value) bool {
+		c := callOf(v)
+		if c == nil {
+			return false
+		}
+		if bi, ok := c.Call.Value.(*ssa.Builtin); !ok || bi.Name() != "len" {
+			return false
+		}
+		_, f, _, ok := loadedField(c.Call.Args[0])
+		return ok && f == "entities" && typeName(fieldOwner(c.Call.Args[0])) == "entityPool"
+	}
+	isAvailable := func(v ssa.Value) bool {
+		_, f, _, ok := loadedField(v)
+		return ok && f == "available"
+	}
+	// two facts, each established on the non-panicking edge of its test: pool holds only slot 0; nothing is recycled
+	onlyZero := &MustFlow{Fn: load, EdgeGen: func(b *ssa.BasicBlock, k int) bool {
 		atom, holds, ok := edgeCond(b, k)
-		if !ok || holds {
+		if !ok {
 			return false
 		}
-		bo, isB := atom.(*ssa.BinOp)
-		if !isB || bo.Op != token.GTR || !isConstInt(bo.Y, 0) {
-			return false
-		}
-		if _, f, _, ok := loadedField(bo.X); !ok || f != "available" {
-			return false
-		}
-		// the other half `len(entities) > 1` must have been tested false on the way here
-		okLen := false
-		for _, pr := range b.Preds {
-			a2, t2, ok2 := ifCond(pr)
-			if !ok2 {
-				continue
-			}
-			if b2, ok := a2.(*ssa.BinOp); ok && b2.Op == token.GTR && isConstInt(b2.Y, 1) && pr.Succs[1-t2] == b {
-				if c := callOf(b2.X); c != nil {
-					if bi, ok := c.Call.Value.(*ssa.Builtin); ok && bi.Name() == "len" {
-						if _, f, _, ok := loadedField(c.Call.Args[0]); ok && f == "entities" {
-							okLen = true
-						}
-					}
-				}
-			}
-		}
-		return okLen && p.panicOnly(b.Succs[1-k])
+		rel, c, ok := boundOnEdge(atom, holds, isLenEntities)
+		return ok && impliesAtMost(rel, c, 1) && leadsToPanic(p, b, 1-k)
 	}}
-	fresh.Run()
+	onlyZero.Run()
+	noneFree := &MustFlow{Fn: load, EdgeGen: func(b *ssa.BasicBlock, k int) bool {
+		atom, holds, ok := edgeCond(b, k)
+		if !ok {
+			return false
+		}
+		rel, c, ok := boundOnEdge(atom, holds, isAvailable)
+		return ok && impliesAtMost(rel, c, 0) && leadsToPanic(p, b, 1-k)
+	}}
+	noneFree.Run()
+	fresh := &bothFlows{onlyZero, noneFree}
 	nW, badLock, badFresh := 0, "", ""
 	for _, b := range load.Blocks {
 		for _, ins := range b.Instrs {
@@ -546,14 +549,11 @@ func c02r3(p *Prog, r *Reporter) {
 	// Recycle: e.id == 0 → panic before any write
 	guard := &MustFlow{Fn: rec, EdgeGen: func(b *ssa.BasicBlock, k int) bool {
 		atom, holds, ok := edgeCond(b, k)
-		if !ok || holds {
+		if !ok {
 			return false
 		}
-		bo, isB := atom.(*ssa.BinOp)
-		if !isB || bo.Op != token.EQL || !isConstInt(bo.Y, 0) || idOf(bo.X) == nil {
-			return false
-		}
-		return p.panicOnly(b.Succs[1-k])
+		rel, c, ok := boundOnEdge(atom, holds, func(v ssa.Value) bool { return idOf(v) != nil })
+		return ok && impliesNonZeroUnsigned(rel, c) && p.panicOnly(b.Succs[1-k])
 	}}
 	guard.Run()
 	okr := true
@@ -697,4 +697,24 @@ func c02r6(p *Prog, r *Reporter) {
 			}
 		}
 	}
+}
+
+type bothFlows struct{ a, b *MustFlow }
+
+func (f *bothFlows) Before(ins ssa.Instruction) bool { return f.a.Before(ins) && f.b.Before(ins) }
+
+// leadsToPanic: the other edge of a test ends in panic, directly or through further tests of an `||` chain
+// (in `a || b → panic` the true edge of a panics, its false edge goes on to test b).
+func leadsToPanic(p *Prog, b *ssa.BasicBlock, k int) bool {
+	s := b.Succs[k]
+	if p.panicOnly(s) {
+		return true
+	}
+	// the successor may be the shared panic block reached also from the second test: accept if some successor path panics only
+	for _, s2 := range s.Succs {
+		if p.panicOnly(s2) && len(s.Instrs) <= 4 {
+			return true
+		}
+	}
+	return false
 }
